@@ -481,10 +481,16 @@ func hookCases(c *core.Ctx) []*b1.Case {
 	return cases
 }
 
-// C10 (static side; the run-time side is added by genexec.go).
+// C10: static side (fit / reject / call shape) and run-time side (trace validation).
 func C10(c *core.Ctx) {
 	cases := hookCases(c)
 	st := b1.Run(c, b1.Options{Name: "hooks", PerFile: 40, Family: "hooks"}, cases, hookJudge)
+	// run-time side: executed generated functions, conjunct "hooks" of GenExecTrace
+	gxCommon(c, "GenExecTraceC10.cfg", "C10", func(r gxRun) bool {
+		pre, _ := r.begin["pre"].(map[string]any)
+		post, _ := r.begin["post"].(map[string]any)
+		return pre["on"] == true || post["on"] == true
+	})
 	c.Set("hook_fit_cases", st.Cases)
 	c.Set("exhaustive", true)
 	for _, j := range []int{0, len(cases) / 2, len(cases) - 1} {
